@@ -101,9 +101,10 @@ func genValidVector(r *rng, k int) (string, vecShape) {
 		return strings.Join(toks, "/"), sh
 	}
 	toks := tokensOf(r, v3BaseDefs)
+	full := r.chance(1, 8) // every optional metric present: the longest well-formed vector
 	if lvl >= 1 {
 		for _, t := range tokensOf(r, v3TempDefs) {
-			if r.chance(2, 3) {
+			if full || r.chance(2, 3) {
 				toks = append(toks, t)
 				sh.HasTemporal = true
 			}
@@ -111,7 +112,7 @@ func genValidVector(r *rng, k int) (string, vecShape) {
 	}
 	if lvl >= 2 {
 		for _, t := range tokensOf(r, v3EnvDefs) {
-			if r.chance(1, 2) {
+			if full || r.chance(1, 2) {
 				toks = append(toks, t)
 				sh.HasEnv = true
 			}
@@ -182,6 +183,14 @@ func genVector(r *rng, k int, big bool) (vec string, class string, sh vecShape) 
 	case c < 62:
 		if big && r.chance(1, 4) {
 			return genBig(r), "big", vecShape{}
+		}
+		if r.chance(1, 3) {
+			// runs of separators / minimal tokens of every small length: token-count
+			// and index arithmetic boundaries
+			n := r.between(1, 40)
+			unit := pick(r, []string{"/", ":", "/:", ":/", "/X:Y", "/A:B", "//", "/AV:N"})
+			prefix := pick(r, []string{"", "CVSS:3.1", "CVSS:3.0", "AV:N"})
+			return prefix + strings.Repeat(unit, n), "separator-run", vecShape{}
 		}
 		return pick(r, rawInputs), "raw", vecShape{}
 	case c < 66:
